@@ -820,6 +820,7 @@ func (f *FileStore) replace(oldFiles, newFiles []string, updatedFn func(r []TSMF
 	if updatedFn != nil {
 		updatedFn(updated)
 	}
+	verifPoint("replace.renamed", f.dir)
 
 	f.mu.Lock()
 	defer f.mu.Unlock()
@@ -892,6 +893,7 @@ func (f *FileStore) replace(oldFiles, newFiles []string, updatedFn func(r []TSMF
 				if err := file.Remove(); err != nil {
 					return err
 				}
+				verifPoint("replace.removed", f.dir)
 				break
 			}
 		}
